@@ -7,7 +7,7 @@ import numpy as np
 from dimarray.config import get_option
 from dimarray.tools import is_DimArray
 from dimarray.core.axes import Axes, Axis
-from dimarray.core.indexing import locate_many
+from dimarray.core.indexing import locate_many, _maybe_cast_type
 
 __all__ = ["broadcast_arrays", "align", "stack", "concatenate"]
 
@@ -623,6 +623,14 @@ def reindex_axis(self, values, axis=0, fill_value=np.nan, raise_error=False, met
 
     # Get indices
     ax = self.axes[axis]
+    if ax.size == 0 and values.size > 0:
+        # empty axis: there is nothing to take from, every requested label is missing
+        if raise_error or method is not None:
+            raise IndexError("Some values where not found in the axis: {}".format(values))
+        newaxes = [Axis(values, a.name, **a.attrs) if a is ax else a.copy() for a in self.axes]
+        newvalues = _maybe_cast_type(np.empty([a.size for a in newaxes], dtype=self.dtype), fill_value)
+        newvalues.fill(fill_value)
+        return self._constructor(newvalues, newaxes, **self.attrs)
     # indices = ax.loc(values, mode='clip', side=method)
     indices = locate_many(ax.values, values, side=method or 'left')
     newobj = self.take_axis(indices, axis, indexing='position')
